@@ -48,9 +48,25 @@ Definition authbytes_msg (m : msg) : bool :=
   | MReq k _ => k =? K_SaslAuthenticate
   end.
 
-(* what the broker's ApiVersions response says about the two SASL APIs
-   (None = api key not listed; only MaxVersion is looked at by either path) *)
-Record advert := { hs_max : option Z; auth_max : option Z }.
+(* the address the connection was dialled with, by what dialer.go splitHostPortNumber makes of
+   it (net.SplitHostPort, "9092" when there is no port, then strconv.Atoi of the port):
+   only a port that is not a number — a service name — is an error; no range check. *)
+Inductive addr_class :=
+| AddrNumericPort      (* host:9092 *)
+| AddrNoPort           (* host             -> port "9092" *)
+| AddrServiceName      (* host:kafka-sasl  -> Atoi fails *)
+| AddrIPv6             (* [::1]:9092 *)
+| AddrPortZero         (* host:0 *)
+| AddrPortHuge         (* host:65536 *)
+| AddrEmpty.           (* ""               -> host "", port "9092" *)
+
+Definition port_is_number (c : addr_class) : bool :=
+  match c with AddrServiceName => false | _ => true end.
+
+(* the static parameters of one connection: what the broker's ApiVersions response says about
+   the two SASL APIs (None = api key not listed; only MaxVersion is looked at by either path)
+   and the class of the address that was dialled *)
+Record advert := { hs_max : option Z; auth_max : option Z; dial_addr : addr_class }.
 
 (* conn.go:72 apiVersionMap.negotiate(key, v0, v1): x := v[key] is the zero ApiVersion when
    the key is missing; scan the client's versions from the highest *)
@@ -103,10 +119,12 @@ Inductive event :=
 | ERecv (r : reaction)
 | EVerdict                (* the final success response arrived and the mechanism completed *)
 | EHandOut                (* Dial returned the Conn / conn.run started serving requests *)
-| EClose.                 (* the client closed the connection *)
+| EClose                  (* the client closed the connection *)
+| ERefused.               (* the dial was refused because of its address; error returned *)
 
 Inductive label :=
 | LStart                  (* the connection is established; the client starts talking *)
+| LDialRefused            (* Dialer path: "could not determine host/port for SASL authentication" *)
 | LBroker (r : reaction)
 | LReturn                 (* authenticateSASL returned nil; connect returns the connection *)
 | LUse (key ver : Z)      (* the owner of the handed-out connection sends a request *)
@@ -132,11 +150,20 @@ Section Machine.
   | PAccepted                                 (* the loop completed *)
   | PHandedOut
   | PFailed                                   (* error returned, connection closed *)
+  | PRefused                                  (* Dialer: address refused, error returned, nothing
+                                                 written; dialer.go:287 returns WITHOUT closing
+                                                 the socket it has just opened *)
   | PUserClosed.
 
   Record state := mkState { ph : phase; tr : list event }.
 
   Definition init : state := mkState PDialed [].
+
+  (* where each path calls splitHostPortNumber on the dial address *)
+  Definition dialer_refuses : bool :=
+    match p with Dialer => negb (port_is_number (dial_addr a)) | Transport => false end.
+  Definition transport_refuses : bool :=
+    match p with Transport => negb (port_is_number (dial_addr a)) | Dialer => false end.
 
   Definition fail (s : state) (r : reaction) : state :=
     mkState PFailed (EClose :: ERecv r :: tr s).
@@ -158,13 +185,18 @@ Section Machine.
     match ph s, l with
     | PDialed, LStart =>
         (* both paths first write ApiVersions v0 (conn.go:1441 via negotiateVersion;
-           transport.go:1195 before SetVersions) *)
-        Some (mkState PApiSent (ESend (MReq K_ApiVersions 0) :: tr s))
+           transport.go:1195 before SetVersions); the Dialer has looked at the address before
+           (dialer.go:286), the Transport looks at it after ApiVersions (transport.go:1215) *)
+        if dialer_refuses then None
+        else Some (mkState PApiSent (ESend (MReq K_ApiVersions 0) :: tr s))
+    | PDialed, LDialRefused =>
+        if dialer_refuses then Some (mkState PRefused (ERefused :: tr s)) else None
     | PApiSent, LBroker r =>
         match r with
         | ROk _ =>
             let v := hs_version p a in
-            if v <? 0 then Some (fail s r)      (* Dialer: no matching versions *)
+            if (v <? 0) || transport_refuses
+            then Some (fail s r)      (* Dialer: no matching versions; Transport: address refused *)
             else Some (mkState (PHsSent v) (ESend (MReq K_SaslHandshake v) :: ERecv r :: tr s))
         | RErr c => if c =? 0 then None else Some (fail s r)
         | RMalformed | RClose => Some (fail s r)
@@ -223,7 +255,7 @@ Section Machine.
     | RMalformed | RNegLen | RClose => True
     | ROk payload =>
         match ph s with
-        | PApiSent => hs_version p a < 0
+        | PApiSent => hs_version p a < 0 \/ transport_refuses = true
         | PHsSent _ => mech_start = None
         | PAuth _ _ ms _ => snd (mech_next ms payload) = false
         | _ => False
@@ -291,7 +323,10 @@ Section Machine.
     | S n =>
         match ph s with
         | PDialed =>
-            match step s LStart with Some s' => drive n fault k s' ss | None => s end
+            match step s LStart with
+            | Some s' => drive n fault k s' ss
+            | None => match step s LDialRefused with Some s' => s' | None => s end
+            end
         | PApiSent | PHsSent _ =>
             match step s (LBroker (pick fault k (ROk []))) with
             | Some s' => drive n fault (S k) s' ss
@@ -331,6 +366,7 @@ Arguments PAuth {mstate}.
 Arguments PAccepted {mstate}.
 Arguments PHandedOut {mstate}.
 Arguments PFailed {mstate}.
+Arguments PRefused {mstate}.
 Arguments PUserClosed {mstate}.
 Arguments init {mstate}.
 Arguments trace {mstate}.
@@ -493,7 +529,7 @@ Definition reaction_of_rr (o : rr_outcome) : reaction :=
   | RRProtocol => RNegLen
   end.
 
-Definition adv_v0 : advert := {| hs_max := Some 0; auth_max := None |}.
+Definition adv_v0 : advert := {| hs_max := Some 0; auth_max := None; dial_addr := AddrNumericPort |}.
 
 (* a scripted run over a v0 handshake whose [step]-th reaction is the raw response
    (announced, avail, e) *)
@@ -520,3 +556,39 @@ Definition reaction_of_response (r : response) : reaction :=
    replaces the honest reaction, a response with code 0 leaves it alone *)
 Definition fault_of_response (step : nat) (r : response) : option (nat * reaction) :=
   if refused r then Some (step, RErr (error_code r)) else None.
+
+(* ------------------------------------------------------------------ *)
+(* n connections set up concurrently with ONE sasl.Mechanism value (a Dialer used from
+   several goroutines, a Transport connecting to several brokers).  Mechanism.Start returns
+   a fresh StateMachine for every call — in the model: [mech_start] is a value and each
+   connection keeps its own copy of the machine state inside its phase — so the joint
+   system is just the interleaving of n single systems: a step of connection i is a [step]
+   of its component. *)
+Section Multi.
+  Variable mstate : Type.
+  Variable mech_start : option (mstate * bytes).
+  Variable mech_next : mstate -> bytes -> (bool * mstate * bytes * bool).
+  Variable p : path.
+  Variable a : advert.
+
+  Fixpoint update {A} (l : list A) (i : nat) (x : A) {struct l} : list A :=
+    match l, i with
+    | [], _ => []
+    | _ :: t, O => x :: t
+    | h :: t, S j => h :: update t j x
+    end.
+
+  Definition mstep (ss : list (state mstate)) (i : nat) (l : label) : option (list (state mstate)) :=
+    match nth_error ss i with
+    | None => None
+    | Some s =>
+        match step mstate mech_start mech_next p a s l with
+        | None => None
+        | Some s' => Some (update ss i s')
+        end
+    end.
+
+  Inductive mreachable (n : nat) : list (state mstate) -> Prop :=
+  | mreach_init : mreachable n (repeat init n)
+  | mreach_step : forall ss i l ss', mreachable n ss -> mstep ss i l = Some ss' -> mreachable n ss'.
+End Multi.
